@@ -91,7 +91,20 @@ def big_rational_node(case) -> bool:
     return False
 
 
+def at_end_tolerance(case) -> bool:
+    """a split parameter whose distance to 0 or 1 is in [1e-6, 1e-5): it is
+    not ignored (the documented tolerance is < 1e-6) and leaves a piece so
+    short that re-uniting it in clean() fails inside pynurbs
+    (IndexError in LeastSquare.spline2spline; observed for t = 1e-06 exactly)"""
+    for _, t in list(case["splits"]) + list(case.get("round2") or []):
+        d = min(abs(float(t)), abs(1 - float(t)))
+        if 1e-6 <= d < 1e-5:
+            return True
+    return False
+
+
 KNOWN_CLASSES = {"split-parameters-closer-than-1e-6": close_params,
+                 "split-parameter-at-the-end-tolerance": at_end_tolerance,
                  "rational-curved-split-at-big-denominator": big_rational_node,
                  "consecutive-legs-cross-below-abs-tolerance": abs_parallel}
 
